@@ -331,6 +331,20 @@ def fresh_replay(path, prop):
         crash = "crash|exit%d" % p.returncode
     return (p.returncode != 0), classes, crash, p.stdout[-3000:] + p.stderr[-3000:]
 
+def crash_in_library(out):
+    """True when the innermost frame of a sanitizer report that is not sanitizer runtime belongs to the library under test (not to the harness)"""
+    import re
+    for line in out.splitlines():
+        m = re.match(r"^\s*#\d+ 0x[0-9a-f]+ in (.+?) (/\S+?):(\d+)", line)
+        if not m:
+            continue
+        path = m.group(2)
+        if "libsanitizer" in path or "/asan/" in path or "sanitizer_common" in path:
+            continue
+        real = os.path.realpath(path)
+        return real.startswith(os.path.realpath(REPO) + os.sep) or "/repo/src/" in path or "/repo/include/" in path
+    return False
+
 def viol_class(v):
     return "%s|%s|%s" % (v.get("prop"), v.get("oracle"), json.dumps(v.get("sig", {}), separators=(",", ":")))
 
@@ -427,7 +441,12 @@ def check(prop, tier):
                     violations.append({"class": cls, "replay": dst, "detail": cls})
                 continue
             if prop not in CRASH_CLAUSE:
-                harness_problems.append("crash class %s at run %d is not attributable to %s (no safety clause); replay %s" % (cls, c["index"], prop, mn)); continue
+                # no safety clause in the statement: attributed only when the sanitizer's innermost frame lies in the library itself (while running
+                # this property's workload the library did not deliver what the property describes); a fault inside the harness stays a harness problem
+                failed0, classes0, crash0, out0 = fresh_replay(mn, prop)
+                if not (crash0 == cls and crash_in_library(out0)):
+                    harness_problems.append("crash class %s at run %d is not attributable to %s (no safety clause, innermost frame not in the library); replay %s" % (cls, c["index"], prop, mn)); continue
+                cls = cls + "|in_library"
             v = {"prop": prop, "oracle": "crash", "sig": {"class": cls}, "detail": cls}
             k = known_match(v, prop)
             if k:
@@ -436,7 +455,7 @@ def check(prop, tier):
             d = json.load(open(mn)); d["property"] = prop; d["class"] = cls; d["oracle"] = "crash"; d["detail"] = cls
             json.dump(d, open(dst, "w"))
             failed, classes, crash, out = fresh_replay(dst, prop)
-            if crash != cls:
+            if crash != cls.replace("|in_library", ""):
                 harness_problems.append("crash replay %s gave %s instead of %s" % (dst, crash, cls)); continue
             violations.append({"class": cls, "replay": dst, "detail": out[-400:]})
         if violations and tier == "quick":
